@@ -52,12 +52,15 @@ Day(k) == DayOf(From(k))          \* the date bound rendered from ctx.From
 -----------------------------------------------------------------------------
 (* Line filter values (texts) and lines, abstract.  Parse = regexp/syntax.Parse + the test of re2Like: is the *)
 (* expression one literal (flags PerlX|FoldCase only), which runes, case folding.                            *)
-Texts == {"lit", "esc", "esc1", "escfix", "lit2", "fold", "lit3", "foldesc", "esc1f", "rx"}
-InitTexts == {"lit", "esc", "escfix", "fold", "foldesc", "rx"}     \* what a query can be written with
+Texts == {"lit", "esc", "esc1", "escl", "escl1", "lit4", "escfix", "lit2", "fold", "lit3", "foldesc", "esc1f", "rx"}
+InitTexts == {"lit", "esc", "escl", "escfix", "fold", "foldesc", "rx"}     \* what a query can be written with
 NoLit == [lit |-> FALSE, runes |-> "", fold |-> FALSE]
 Parse(t) == CASE t = "lit"     -> [lit |-> TRUE, runes |-> "lit",   fold |-> FALSE]
               [] t = "esc"     -> [lit |-> TRUE, runes |-> "esc1",  fold |-> FALSE]   \* a\.b  -> a.b
               [] t = "esc1"    -> NoLit                                              \* a.b is not a literal
+              [] t = "escl"    -> [lit |-> TRUE, runes |-> "escl1", fold |-> FALSE]   \* \[x\] -> [x]
+              [] t = "escl1"   -> [lit |-> TRUE, runes |-> "lit4",  fold |-> FALSE]   \* [x]   -> x   (a one-character class IS a literal)
+              [] t = "lit4"    -> [lit |-> TRUE, runes |-> "lit4",  fold |-> FALSE]
               [] t = "escfix"  -> [lit |-> TRUE, runes |-> "lit2",  fold |-> FALSE]   \* a\-b  -> a-b
               [] t = "lit2"    -> [lit |-> TRUE, runes |-> "lit2",  fold |-> FALSE]
               [] t = "fold"    -> [lit |-> TRUE, runes |-> "lit3",  fold |-> TRUE]    \* (?i)ab -> AB, fold
@@ -65,10 +68,12 @@ Parse(t) == CASE t = "lit"     -> [lit |-> TRUE, runes |-> "lit",   fold |-> FAL
               [] t = "foldesc" -> [lit |-> TRUE, runes |-> "esc1f", fold |-> TRUE]    \* (?i)a\.b
               [] t = "esc1f"   -> NoLit
               [] OTHER         -> NoLit                                              \* rx
-Lines == {"l_lit", "l_esc1", "l_esc1_any", "l_lit2", "l_lit3", "l_lit3_case", "l_esc1f", "l_esc1f_case", "l_esc1f_any", "l_rx", "l_none"}
+Lines == {"l_lit", "l_esc1", "l_esc1_any", "l_escl1", "l_lit4", "l_lit2", "l_lit3", "l_lit3_case", "l_esc1f", "l_esc1f_case", "l_esc1f_any", "l_rx", "l_none"}
 \* lines containing the text literally (LIKE '%t%'; ILIKE with fold)
 LikeSet(t, fold) == CASE t = "lit"   -> {"l_lit"}
                       [] t = "esc1"  -> {"l_esc1"}
+                      [] t = "escl1" -> {"l_escl1"}
+                      [] t = "lit4"  -> {"l_lit4", "l_escl1"}           \* the line [x] contains x
                       [] t = "lit2"  -> {"l_lit2"}
                       [] t = "lit3"  -> IF fold THEN {"l_lit3", "l_lit3_case"} ELSE {"l_lit3"}
                       [] t = "esc1f" -> IF fold THEN {"l_esc1f", "l_esc1f_case"} ELSE {"l_esc1f"}
@@ -77,6 +82,9 @@ LikeSet(t, fold) == CASE t = "lit"   -> {"l_lit"}
 MatchSet(t) == CASE t = "lit"     -> {"l_lit"}
                  [] t = "esc"     -> {"l_esc1"}
                  [] t = "esc1"    -> {"l_esc1", "l_esc1_any"}
+                 [] t = "escl"    -> {"l_escl1"}
+                 [] t = "escl1"   -> {"l_lit4", "l_escl1"}
+                 [] t = "lit4"    -> {"l_lit4", "l_escl1"}
                  [] t = "escfix"  -> {"l_lit2"}
                  [] t = "lit2"    -> {"l_lit2"}
                  [] t = "fold"    -> {"l_lit3", "l_lit3_case"}
@@ -185,8 +193,9 @@ MeaningLog(s) == [db \in DBs |-> ResultLog(db, s)]
 \* OR-ed keys; further keys only add groups that the HAVING on the condition bits removes
 MeaningAC(s) == [agg |-> s.agg, covered |-> (s.agg = "" \/ s.agg \in s.keys \/ s.agg \in {"none", "duration"}), from |-> s.from, to |-> s.to, ctx |-> s.ctx]
 SameMeaning(q, s1, s2) ==
-    IF IsLogQL(q) THEN MeaningLog(s1) = MeaningLog(s2) /\ s1.fmt = s2.fmt
-    ELSE MeaningAC(s1) = MeaningAC(s2)
+    \/ s1 = s2                           \* the same statement
+    \/ IF IsLogQL(q) THEN MeaningLog(s1) = MeaningLog(s2) /\ s1.fmt = s2.fmt
+       ELSE MeaningAC(s1) = MeaningAC(s2)
 
 \* THE PROPERTY, per query class and execution number: the expected outcome for the real code
 Diverges(q, k) == ~SameMeaning(q, ExecK(q, k).sem, Fresh(q, k).sem)
